@@ -40,4 +40,7 @@ def util_xopen (truth : Term → Bool) : Out :=
         else
           Out.ret [] (Term.app "open" [(Term.sym "path"), (Term.sym "mode"), (Term.app "=**" [(Term.sym "kwargs")])])
 
+/-- the decorators of dataiter/util.py: xopen, outermost first -/
+def util_xopen_decorators : List String := []
+
 end DI.Gen
